@@ -125,6 +125,8 @@ type caseSpec struct {
 	stims []stim // replay: explicit stimulus
 	hasE  bool   // replay: an E line was given
 	opt   genOpts // generator options that change the emitted text, not the machine
+	dom   []int   // processor -> domain index (nil: processor p is an instance of domain p)
+	ndoms int     // number of domains (0: one per processor); domains nobody instantiates are idle stubs
 	delays [][]opDelay // simulated opcode latencies: one extra simulator run per assignment (hdl / dly modes)
 }
 
@@ -159,11 +161,56 @@ func buildMachine(s archSpec) (*procbuilder.Machine, error) {
 }
 
 // build applies the edits with the real API
+// domOf: the domain that processor p instantiates
+func (c *caseSpec) domOf(p int) int {
+	if c.dom != nil && p < len(c.dom) {
+		return c.dom[p]
+	}
+	return p
+}
+
+func (c *caseSpec) numDoms() int {
+	n := c.ndoms
+	if n < len(c.procs) && c.dom == nil {
+		n = len(c.procs)
+	}
+	for p := range c.procs {
+		if c.domOf(p)+1 > n {
+			n = c.domOf(p) + 1
+		}
+	}
+	return n
+}
+
+// build creates the domains (as `bondmachine -add-domains` does: plain appends to Domains, in
+// domain order) and applies the edits with the real API; a processor is `Add_processor(domain)`:
+// several processors may instantiate one domain, domains may be listed in another order than
+// the processors, and some may be unused
 func build(c *caseSpec) (*bondmachine.Bondmachine, []*procbuilder.Machine, error) {
 	bm := new(bondmachine.Bondmachine)
 	bm.Rsize = uint8(c.rsize)
 	bm.Init()
 	machs := make([]*procbuilder.Machine, len(c.procs))
+	nd := c.numDoms()
+	for d := 0; d < nd; d++ {
+		spec := procSpec{arch: archSpec{rsize: c.rsize, r: 1, o: 2, mode: "ha", ops: []string{"j", "nop"}}, src: []string{"j 0"}}
+		for p := range c.procs {
+			if c.domOf(p) == d {
+				spec = c.procs[p]
+				break
+			}
+		}
+		m, err := buildMachine(spec.arch)
+		if err != nil {
+			return nil, nil, err
+		}
+		prog, err := m.Arch.Assembler([]byte(strings.Join(spec.src, "\n") + "\n"))
+		if err != nil {
+			return nil, nil, fmt.Errorf("assembler domain %d: %v", d, err)
+		}
+		m.Program = prog
+		bm.Domains = append(bm.Domains, m)
+	}
 	for _, e := range c.edits {
 		switch e.kind {
 		case "ai":
@@ -171,19 +218,9 @@ func build(c *caseSpec) (*bondmachine.Bondmachine, []*procbuilder.Machine, error
 		case "ao":
 			bm.Add_output()
 		case "ap":
-			ps := c.procs[e.p]
-			m, err := buildMachine(ps.arch)
-			if err != nil {
-				return nil, nil, err
-			}
-			prog, err := m.Arch.Assembler([]byte(strings.Join(ps.src, "\n") + "\n"))
-			if err != nil {
-				return nil, nil, fmt.Errorf("assembler p%d: %v", e.p, err)
-			}
-			m.Program = prog
-			machs[e.p] = m
-			bm.Domains = append(bm.Domains, m)
-			if _, err := bm.Add_processor(len(bm.Domains) - 1); err != nil {
+			d := c.domOf(e.p)
+			machs[e.p] = bm.Domains[d]
+			if _, err := bm.Add_processor(d); err != nil {
 				return nil, nil, err
 			}
 		case "ab":
@@ -237,7 +274,7 @@ func graphLine(bm *bondmachine.Bondmachine) string {
 func editLine(c *caseSpec, e edit) string {
 	switch e.kind {
 	case "ap":
-		return fmt.Sprintf("D ap %d", e.p)
+		return fmt.Sprintf("D ap %d %d", e.p, c.domOf(e.p))
 	case "ab":
 		return fmt.Sprintf("D ab %s %s", e.a, e.b)
 	}
@@ -283,6 +320,20 @@ func genCase(r *common.Rng, ticks int, full bool) *caseSpec {
 	ports := make([]pp, np)
 	for i := range ports {
 		ports[i] = pp{pick(r, []int{2, 5, 4, 1}), pick(r, []int{2, 5, 4, 1})}
+	}
+	// processor -> domain: a processor may be one more instance of an earlier processor's domain
+	// (`-add-processor d` twice: the usual way to replicate a core); classes are numbered by first use
+	class := make([]int, np)
+	nclass := 0
+	for p := 0; p < np; p++ {
+		if p > 0 && r.Chance(1, 4) {
+			q := r.Intn(p)
+			class[p] = class[q]
+			ports[p] = ports[q]
+		} else {
+			class[p] = nclass
+			nclass++
+		}
 	}
 	// order of the API calls: random interleaving (the order of Internal_inputs/outputs follows it)
 	var es []edit
@@ -392,8 +443,37 @@ func genCase(r *common.Rng, ticks int, full bool) *caseSpec {
 		// made twice is overwritten: exercise both
 		c.edits = append([]edit{bonds[r.Intn(len(bonds))]}, c.edits...)
 	}
-	for p := 0; p < np; p++ {
-		a := archSpec{rsize: c.rsize, r: 1 + r.Intn(3), n: ports[p].n, m: ports[p].m, l: 0, o: 6, mode: "ha"}
+	// one architecture and one program per class; a program only uses the ports that are connected
+	// on every instance of its domain
+	inter := func(a, b []int) []int {
+		var res []int
+		for _, x := range a {
+			for _, y := range b {
+				if x == y {
+					res = append(res, x)
+				}
+			}
+		}
+		return res
+	}
+	classSpec := make([]*procSpec, nclass)
+	for cl := 0; cl < nclass; cl++ {
+		first := true
+		var uin, uout []int
+		var pt pp
+		for p := 0; p < np; p++ {
+			if class[p] != cl {
+				continue
+			}
+			sort.Ints(usedIn[p])
+			sort.Ints(usedOut[p])
+			if first {
+				uin, uout, pt, first = usedIn[p], usedOut[p], ports[p], false
+			} else {
+				uin, uout = inter(uin, usedIn[p]), inter(uout, usedOut[p])
+			}
+		}
+		a := archSpec{rsize: c.rsize, r: 1 + r.Intn(3), n: pt.n, m: pt.m, l: 0, o: 6, mode: "ha"}
 		ops := []string{"nop", "rset", "inc", "add", "cpy", "j"}
 		for _, x := range []string{"dec", "clr", "mult"} {
 			if r.Chance(1, 3) {
@@ -408,9 +488,29 @@ func genCase(r *common.Rng, ticks int, full bool) *caseSpec {
 		}
 		sort.Strings(ops)
 		a.ops = ops
-		sort.Ints(usedIn[p])
-		sort.Ints(usedOut[p])
-		c.procs = append(c.procs, procSpec{arch: a, src: genProgram(r, a, usedIn[p], usedOut[p])})
+		classSpec[cl] = &procSpec{arch: a, src: genProgram(r, a, uin, uout)}
+	}
+	for p := 0; p < np; p++ {
+		c.procs = append(c.procs, *classSpec[class[p]])
+	}
+	// class -> domain index: identity, or another order, possibly with domains nobody instantiates
+	c.ndoms = nclass
+	if r.Chance(1, 4) {
+		c.ndoms += 1 + r.Intn(2)
+	}
+	perm := make([]int, c.ndoms)
+	for i := range perm {
+		perm[i] = i
+	}
+	if nclass != np || c.ndoms != nclass || r.Chance(1, 2) {
+		for i := len(perm) - 1; i > 0; i-- {
+			j := r.Intn(i + 1)
+			perm[i], perm[j] = perm[j], perm[i]
+		}
+	}
+	c.dom = make([]int, np)
+	for p := 0; p < np; p++ {
+		c.dom[p] = perm[class[p]]
 	}
 	// environment
 	c.env.clocks = 3 * ticks / 2
@@ -1095,6 +1195,7 @@ func runCase(r *common.Rng, c *caseSpec, mode string) {
 		}
 		out.Line("%s", graphLine(bm))
 		out.Line("%s", c.opt.line())
+		out.Line("DM %d", len(bm.Domains))
 		for _, e := range c.edits {
 			out.Line("%s", editLine(c, e))
 		}
@@ -1330,7 +1431,14 @@ func replay(path string, mode string) {
 			}
 			switch fs[1] {
 			case "ap":
-				c.edits = append(c.edits, edit{kind: "ap", p: atoi(fs[2])})
+				p := atoi(fs[2])
+				c.edits = append(c.edits, edit{kind: "ap", p: p})
+				if len(fs) > 3 { // processor p instantiates domain fs[3]
+					for len(c.dom) <= p {
+						c.dom = append(c.dom, len(c.dom))
+					}
+					c.dom[p] = atoi(fs[3])
+				}
 			case "ab":
 				c.edits = append(c.edits, edit{kind: "ab", a: fs[2], b: fs[3]})
 			default:
@@ -1376,6 +1484,10 @@ func replay(path string, mode string) {
 		case "K":
 			if c != nil {
 				c.ticks = atoi(fs[1])
+			}
+		case "DM":
+			if c != nil {
+				c.ndoms = atoi(fs[1])
 			}
 		case "O":
 			if c != nil {
@@ -1467,6 +1579,14 @@ func netExhaustive(r *common.Rng, limit int) {
 					c := &caseSpec{rsize: 8, procs: c0.procs}
 					nx++
 					c.opt.commented = nx%2 == 0
+					if len(sh) == 2 {
+						switch {
+						case sh[0] == sh[1] && nx%3 == 0: // one domain, two instances
+							c.dom, c.ndoms = []int{0, 0}, 1
+						case nx%3 == 1: // domains in the other order, one unused domain in front
+							c.dom, c.ndoms = []int{2, 1}, 3
+						}
+					}
 					c.edits = append(c.edits, c0.edits...)
 					for i, ch := range choice {
 						if ch > 0 {
